@@ -81,6 +81,26 @@ def TFor.dec : Sexp → Option (TFor α)
     pure { its := ← optAll (its.map TIt.dec), idx := ← optAll (idx.map TE.dec) }
   | _ => none
 
+def optTE : Sexp → Option (Option (TE α))
+  | .atom "none" => some none
+  | e => (TE.dec e).map some
+/-- `(bool)`, `(real LO HI)`, `(nnreal LO HI)`, `(int LO HI)`; an absent bound is `none` -/
+def TTy.dec : Sexp → Option (TTy α)
+  | .list [.atom "bool"] => some .bool
+  | .list [.atom "real", a, b] => do pure (.real (← optTE a) (← optTE b))
+  | .list [.atom "nnreal", a, b] => do pure (.nnreal (← optTE a) (← optTE b))
+  | .list [.atom "int", a, b] => do pure (.int (← TE.dec a) (← TE.dec b))
+  | _ => none
+/-- `(decl (its IT…) (vars (v "n") | (cv "n" TE…) …) TY)` -/
+def TDecl.dec : Sexp → Option (TDecl α)
+  | .list [.atom "decl", .list (.atom "its" :: its), .list (.atom "vars" :: vs), ty] => do
+    let vars ← optAll (vs.map fun
+      | .list [.atom "v", .str n] => some (n, none)
+      | .list (.atom "cv" :: .str n :: idx) => (optAll (idx.map TE.dec)).map (fun ix => (n, some ix))
+      | _ => none)
+    pure { its := ← optAll (its.map TIt.dec), vars := vars, ty := ← TTy.dec ty }
+  | _ => none
+
 def encRes (r : Except OpErr (Prim α)) : Sexp :=
   match r with
   | .ok v => app "ok" [v.enc]
